@@ -1268,6 +1268,15 @@ class EscapeAnalysis:
                 self.implicit_sites.append((fi.short, stmt_text(call, 60)))
                 out.add(Esc("UnicodeEncodeError", fi.short, call.lineno, stmt_text(call, 80)))
                 return out
+        if isinstance(f, ast.Attribute) and f.attr in ("debug", "info", "warning", "error", "exception", "critical", "warn") and call.keywords:
+            # logging.Logger methods take exc_info / stack_info / stacklevel / extra only: any other keyword raises
+            # TypeError at the call (receiver must look like a logger: `log`, `self.log`, `logger`, `logging`, ...)
+            recv = (chain(f.value) or "").split(".")[-1]
+            if recv in ("log", "logger", "logging", "_log", "_logger") or recv.endswith("log"):
+                bad = [k.arg for k in call.keywords if k.arg is not None and k.arg not in ("exc_info", "stack_info", "stacklevel", "extra")]
+                if bad:
+                    self.implicit_sites.append((fi.short, stmt_text(call, 60)))
+                    out.add(Esc("TypeError", fi.short, call.lineno, "logging call with unsupported keyword %s: %s" % (bad[0], stmt_text(call, 60))))
         if isinstance(f, ast.Name) and f.id == "int" and len(call.args) >= 1 and not self.res._is_local(fi, "int"):
             if self._strish(fi, call.args[0]) or len(call.args) == 2:
                 self.implicit_sites.append((fi.short, stmt_text(call, 60)))
